@@ -319,9 +319,8 @@ theorem epc_layout (a : EpcArgs) (canName : String → Bool) (k : Nat) (t : Str)
     whitespace is counted, and accepts only inputs that violate none; and for an accepted input the
     character set number is the requested one, else the first of 2..8 that can represent the text,
     else 1, and the encoded payload has at most 331 bytes.  Proved parts: `epc_layout`, `epc_constants`,
-    `epc_amount`, `epc_amount_value`, `epc_fits_13M`.  Missing: the whitespace lemmas (`strip` /
-    `rstrip` against `trim`), the equivalence of the two character-set searches and the case analysis
-    of the thirteen limits. -/
+    `epc_amount`, `epc_amount_value`, `epc_fits_13M`.  PROVED in Props/C16Epc.lean (`epc_refusals`), after the judge's cent rounding was corrected to ties-to-even
+    (the proof attempt exposed a judge that counted a longer amount text at x.y05). -/
 def epc_refusals_statement : Prop :=
   ∀ (a : EpcArgs),
     let canName := fun (n : String) => match epcEncodings.idxOf? n with | some i => a.can.getD i false | none => false
